@@ -36,6 +36,14 @@ Theorem C14_qindex_upper_bound : forall target_size coeff_sets align_bits minimu
   q <= Z.max minimum_qindex (zero_qindex coeff_sets).
 Proof. exact quantize_to_fit_upper. Qed.
 
+(* "fits" is monotone in the index for this quantiser (magnitudes, hence code lengths, never
+   grow with the index), so the linear search's answer is also THE threshold: every index at
+   or above it fits, none below does.  (A bisection would have been exact too.) *)
+Theorem C14_fits_monotone : forall target_size coeff_sets align_bits q q',
+  0 < align_bits -> q <= q' ->
+  fits target_size coeff_sets align_bits q = true -> fits target_size coeff_sets align_bits q' = true.
+Proof. exact fits_monotone. Qed.
+
 (* the search itself knows nothing about the width of the qindex field: the unrepaired
    encoder emitted such indices (serialisation then failed); see the fix *)
 Theorem C14_search_qindex_7bit_refuted :
